@@ -94,9 +94,10 @@ Print Assumptions C10_reexecuted.
 
 (* lifted to every sequence of reloads (None | name | '*'), each finding an arbitrary tree and configuration -- any
    sequence of modify / touch / create / delete / rename / configuration steps in between is some such tree --
-   by induction over the history; the only hypothesis is that the recorded import graph is acyclic at each step *)
-Theorem C10_history : forall steps born st, uniq_ctx st ->
-  hist_all (fun _ st _ => acyclic st) born st steps -> hist_all step_thms born st steps.
+   by induction over the history (a change of the global options since the previous reload turns the step into '*',
+   [eff_arg]); the only hypothesis is that the recorded import graph is acyclic at each step *)
+Theorem C10_history : forall steps born old st, uniq_ctx st ->
+  hist_all (fun _ st _ _ => acyclic st) born old st steps -> hist_all step_thms born old st steps.
 Proof. exact history_thms. Qed.
 Print Assumptions C10_history.
 
